@@ -160,7 +160,7 @@ func withWatchdog(timeout time.Duration, f func()) bool {
 }
 
 var spinSink int64
-var meetFlag int32
+var meetFlag, meetHold int32
 
 func c14(c *Ctx) {
 	if c.Race {
@@ -201,6 +201,12 @@ func c14(c *Ctx) {
 				if ch != nil {
 					atomic.StoreInt32(&meetFlag, 1) // a controller spinning on this flag goes at once
 					close(ch)
+					if atomic.LoadInt32(&meetHold) == 1 {
+						// hold the timer between its last check and its fire: meanwhile the
+						// controller stops this search and starts the next one
+						time.Sleep(time.Duration(1+pr2.Intn(3)) * time.Millisecond)
+						return
+					}
 					// vary the alignment of the two stop requests on the scale of nanoseconds
 					for i, n := 0, pr2.Intn(400); i < n; i++ {
 						spinSink++
@@ -464,6 +470,8 @@ func c14(c *Ctx) {
 			for t := 0; t < c.Size(12, 400) && !blocked; t++ {
 				ch := make(chan struct{})
 				atomic.StoreInt32(&meetFlag, 0)
+				hold := t%2 == 1
+				atomic.StoreInt32(&meetHold, map[bool]int32{false: 0, true: 1}[hold])
 				meetMu.Lock()
 				meetCh = ch
 				meetMu.Unlock()
@@ -493,6 +501,21 @@ func c14(c *Ctx) {
 				default:
 				}
 				call("stop", func() { s.StopSearch() })
+				if hold && !blocked {
+					// the old timer is still held before its fire: the next search must not
+					// be touched by it
+					start([]string{"infinite", "depth"}[r.Intn(2)])
+					rep.Inc("next_search_started_while_old_timer_held")
+					time.Sleep(6 * time.Millisecond)
+					if !blocked {
+						call("issearching", func() {
+							v := s.IsSearching()
+							rec.add("issearching-value", map[bool]int64{false: 0, true: 1}[v], 0, "")
+						})
+						call("stop", func() { s.StopSearch() })
+					}
+				}
+				atomic.StoreInt32(&meetHold, 0)
 				meetMu.Lock()
 				meetCh = nil
 				meetMu.Unlock()
